@@ -11,7 +11,7 @@ TRUSTED = [
     'volatile exemption, Set.load / copy / __len__, Set.db_reverse_add, Set.db_reverse_remove (with its phantom-disappeared check) and the many-to-many phantom checks; tied on every '
     'run by replaying every enumerated history (reader operations with committed writer sessions inserted at every position) on real '
     'db_sessions over a SQLite file and comparing failure flag and every observation with the model inside Coq (vm_compute)',
-    'the harness (tools/c20_sessions.py, c21_driver.py): worker threads stepped by a controller; the external values a re-fetch brings are read '
+    'the harness (tools/c20_sessions.py, c21_driver.py): worker threads stepped by a controller (a hard timeout only reports a hang; whether a writer action can be applied is decided by reading provider.transaction_lock.locked()); the external values a re-fetch brings are read '
     'from the file with a raw sqlite3 connection just before the reader operation; for len() the set content and, after every observation, the read bits of the members\' back-reference are peeked from obj._vals_ / item._rbits_',
 ]
 ASSUMPTIONS = [
@@ -25,7 +25,7 @@ ASSUMPTIONS = [
 ]
 RULE = ('exhaustive: every reader program of a fixed pool (scalar: reads / re-fetch queries / own writes over plain, volatile and lazy attributes; '
         'one-to-many (back-reference plain / member of a secondary unique key / member of the primary key) and many-to-many collections: len / iteration / re-fetch of items / load of the other side) x every writer action '
-        '(committed by another session) x every insertion position, and every pair of writer actions at every pair of positions; '
+        '(committed by another session) x every insertion position (pairs of writer actions for a seed-dependent subset of programs in the quick tier, for all in thorough; triples for two programs in thorough); a to-one reference re-pointed under the reader; '
         'non-trivial = the run ended in UnrepeatableReadError or an observation was made after a writer action; distinct = distinct operation sequences')
 
 VOL = '[false; false; true; false]'
@@ -128,7 +128,7 @@ def gen_cases(ctx, deep=False):
                     put({'kind': 'ref', 'db0': db0, 'ops': ops})
     put({'kind': 'proj'})
     for k, prog in enumerate(O2M_PROGS):
-        for m in (0, 1) + ((2,) if big or k == ctx.seed % 2 else ()) + ((3,) if huge and len(prog) <= 3 else ()):
+        for m in (0, 1) + ((2,) if big or k == ctx.seed % 2 else ()) + ((3,) if huge and k == 0 else ()):
             for ops in insertions(prog, O2M_ACTS, m):
                 put({'kind': 'coll', 'm2m': False, 'ops': ops})
     # the same reader programs on a one-to-many whose back-reference is a member of a secondary unique key (composite_key(owner, number))
@@ -140,7 +140,7 @@ def gen_cases(ctx, deep=False):
             for ops in insertions(prog, PK_ACTS, m):
                 put({'kind': 'coll', 'm2m': False, 'ref': 'pk', 'ops': ops})
     for k, prog in enumerate(M2M_PROGS):
-        for m in (0, 1) + ((2,) if big or k == (0, 3)[ctx.seed % 2] else ()) + ((3,) if huge else ()):
+        for m in (0, 1) + ((2,) if big or k == (0, 3)[ctx.seed % 2] else ()) + ((3,) if huge and k in (0, 3) else ()):
             for ops in insertions(prog, M2M_ACTS + ([['link', 1], ['link', 2], ['unlink', 3]] if m >= 2 else []), m):
                 if valid_coll(ops): put({'kind': 'coll', 'm2m': True, 'ops': ops})
     return cases
@@ -368,15 +368,16 @@ def replay(ctx, data):
     return None
 
 
-LEVEL_TEXT = ('Machine-checked proof (Coq 8.16.1) over an executable model of Pony\'s reload logic: for ALL histories of reads, own writes and '
-              're-fetched columns carrying arbitrary external values, every value read for a non-volatile attribute equals the previous value '
+LEVEL_TEXT = ('Machine-checked proof (Coq 8.16.1) over an executable model of Pony\'s reload logic: for ALL histories of reads, own writes, own flushes '
+              '(a query after a write, commit() in the middle of the session: read bits are kept, written attributes gain one) and re-fetched columns carrying arbitrary external values, every value read for a non-volatile attribute equals the previous value '
               'read or written for it, or the run has ended in UnrepeatableReadError (and the error is raised exactly when a read column comes '
               'back different). Collections (one-to-many and many-to-many): all observations of a collection are equal under all histories of '
               'observations, re-fetched member rows and loads of the other side (the former defect - a member silently dropped from a collection '
               'known only through len() - was repaired in the repo, commit a9972eb, and is now part of the model). Every run replays every reader '
               'program x writer action x insertion position on real sessions over a SQLite file and compares with the model by vm_compute.')
-LEVEL_NOTE = ('Partial: one object / one collection; Attribute.db_set is tied only through lazy loads; reader queries after own writes (auto-flush) and '
-              'batch prefetching are outside the model. Trusted: Coq kernel + vm_compute; the session-stepping harness; raw-connection snapshots of '
+LEVEL_NOTE = ('Partial: one object / one collection; Attribute.db_set is tied only through lazy loads (one-to-one reverse updates are not); the `wbits` branch of _db_set_ '
+              '(a reload while writes are pending, reachable only under flush_disabled) is modelled and proved but not tied; batch prefetching is switched off; '
+              'scalar projections and values of objects never read are outside the statement (documented, pinned by a decision test); the tie also compares the read bits that iterating a one-to-many collection puts on the members (exempt only for a primary-key back-reference). Trusted: Coq kernel + vm_compute; the session-stepping harness; raw-connection snapshots of '
               'the external values.')
 TECHNIQUE = 'Coq invariant proof over all event histories of an executable model; vm_compute correspondence with real reader/writer sessions at every insertion position; property oracle search'
 DESIGN_REF = 'DESIGN.md section 5, C21'
